@@ -36,7 +36,7 @@ class Session:
         fcntl.ioctl(self.fd, termios.TIOCSWINSZ, struct.pack("HHHH", 50, 200, 0, 0))
         self.buf = ""
 
-    def read_until_prompt(self, timeout=20.0):
+    def read_until_prompt(self, timeout=60.0):
         """returns (text before the prompt, scope in the prompt); the prompt must be the last thing on the terminal and
         the terminal must have been quiet for 60 ms (completion pop-ups repaint the prompt line)"""
         end = time.time() + timeout
@@ -126,7 +126,7 @@ def run_session(falco, steps, canary=False):
     s = Session(falco)
     res = {"mismatch": [], "drift": [], "observed": []}
     try:
-        _, scope = s.read_until_prompt(30.0)
+        _, scope = s.read_until_prompt(120.0)
         if scope != "RECV":
             raise MachineryFault("initial prompt shows %s" % scope)
         for i, st in enumerate(steps):
